@@ -1,5 +1,6 @@
 """C03 -- atom syntax acceptance matches the PMS grammar for each EAPI and round-trips (DESIGN.md section 4, C03)."""
 import itertools
+import types
 import random
 import re
 import z3
@@ -206,7 +207,32 @@ def enum_atoms(seed):
     CHUNKS = ("7", "3d", "1_p2", "r1", "r05", "a", "1a", "x_y", "1.2")
     chunk_names = ["-".join(t) for n_ in (1, 2, 3) for t in itertools.product(CHUNKS, repeat=n_)]
     exact = [f"cat/{n_}" for n_ in chunk_names] + [f"=cat/{n_}-1.0" for n_ in chunk_names if thorough or hash(n_) % 3 == 0] + [f">=cat/{n_}-2-r3" for n_ in chunk_names[:90]]
-    probe_pkgs = None
+    # revision spellings under every operator (the glob compares text, the others numbers): the rendered text must select the same versions
+    exact += [f"{op}cat/pkg-{v}{r}{g}" for op, g in (("=", ""), ("=", "*"), ("~", ""), (">=", ""), ("<", "")) for v in ("1", "1.0", "1.0_p1") for r in ("", "-r0", "-r00", "-r1", "-r01", "-r10")
+              if not (op == "~" and r)]
+
+    def probes_for(a):
+        """packages around the atom's version: the same name, the revision spelled in several ways, neighbours"""
+        from pkgcore.test.misc import FakePkg
+        if a.version is None:
+            return [FakePkg(f"{a.key}-1", slot=a.slot or "0")]
+        out = []
+        for v in (a.version, a.version + ".1", a.version + "0", a.version + "_p1", "0", "99"):
+            for r in ("", "-r0", "-r1", "-r01", "-r10", "-r2"):
+                try:
+                    out.append(FakePkg(f"{a.key}-{v}{r}", slot=a.slot or "0", subslot=a.subslot, repo=types.SimpleNamespace(repo_id=a.repo_id or "gentoo")))
+                except Exception:
+                    pass
+        return out
+
+    def verdicts(a, pkgs):
+        out = []
+        for p_ in pkgs:
+            try:
+                out.append(bool(a.match(p_)))
+            except Exception as ex_:
+                out.append(type(ex_).__name__)
+        return out
     fails, cases = [], 0
     kinds = {}
 
@@ -250,8 +276,15 @@ def enum_atoms(seed):
                         continue
                     if b2 != a or str(b2) != text:
                         note("render_not_equal", {"atom": s, "eapi": e, "rendered": text}, f"atom({s!r}, eapi={e}) renders as {text!r}, which parses to a different atom {b2!r}")
+                    elif e in (None, "8") and not a.use:
+                        pk = probes_for(a)
+                        va, vb = verdicts(a, pk), verdicts(b2, pk)
+                        if va != vb:
+                            i_ = next(i for i in range(len(pk)) if va[i] != vb[i])
+                            note("render_matches_differently", {"atom": s, "eapi": e, "rendered": text, "package": pk[i_].cpvstr},
+                                 f"atom({s!r}, eapi={e}) renders as {text!r}; on {pk[i_].cpvstr} the atom says {va[i_]}, the atom parsed from its text says {vb[i_]}")
     return {"name": "C03.atoms.bounded_enumeration", "bound": f"{len(base)} grammar-generated atoms and {'all' if thorough else 'a sample of'} their single-character deletions / insertions / replacements and {len(exact)} atoms over package names of 1..3 version- / revision- / word-like chunks ({len(seen)} strings) "
-            f"under EAPI {[e or 'none' for e in eapis]}: verdict against the PMS 8.3 oracle, exception type, render/parse round trip", "cases": cases, "failures": fails}
+            f"under EAPI {[e or 'none' for e in eapis]}: verdict against the PMS 8.3 oracle, exception type, render/parse round trip (equal, same text, and -- for atoms without USE deps -- the same verdict on 36 packages around the atom's version, revisions spelled -r0 / -r01 / -r10 included)", "cases": cases, "failures": fails}
 
 
 def tasks():
